@@ -5,7 +5,12 @@ From incr Require Import Base Heap EngineDefs Engine EngineWf Spec SpecProofs.
 
 (* reports (operation index, code): 1 = not locally consistent, 2 = an observer disagrees with
    eval, 3 = wfb fails, 4 = closed fails, 5 = templates contain a parity cutoff (the history is
-   then outside the theorem's domain and is skipped, not reported) *)
+   then outside the theorem's domain and is skipped, not reported).
+   Also skipped: states in which an invalidated node is still registered -- a node of a discarded
+   bind generation kept in the graph by an observer of its own.  Such a node has no from-scratch
+   meaning any more ([consistent] asks every registered node to be valid), and the property
+   speaks of the observers of live nodes. *)
+Definition all_valid (s : state) : bool := forallb (fun n => valid (nd s n)) (registered s).
 Fixpoint c01_hyp_trace (s : state) (os : list op) (i : nat) : option (nat * nat) :=
   match os with
   | [] => None
@@ -13,7 +18,7 @@ Fixpoint c01_hyp_trace (s : state) (os : list op) (i : nat) : option (nat * nat)
     if negb (op_ok s o) then Some (i, 99%nat) else
     match step (s <| log := [] |>) o with
     | Ok (s', None) =>
-      if is_pass o && negb (has_writes o) && templates_ok s' then
+      if is_pass o && negb (has_writes o) && templates_ok s' && all_valid s' then
         if negb (wfb s') then Some (i, 3%nat)
         else if negb (closed s') then Some (i, 4%nat)
         else if negb (consistent s') then Some (i, 1%nat)
